@@ -243,3 +243,123 @@ Proof.
   rewrite mid_end. unfold A'. rewrite <- set_labels_append.
   f_equal. change (cells_size d1) with 4. change (size (set_labels A L)) with (size A). lia.
 Qed.
+
+(* ================================================================== all sets, the table, the whole file *)
+Fixpoint sets_cells (sets : list oset) : list cell :=
+  match sets with [] => [] | s :: r => set_cells s ++ sets_cells r end.
+(* the label of a set sits on the first byte of its record *)
+Fixpoint sets_labels (p : N) (sets : list oset) : amap (list bytes) :=
+  match sets with [] => [] | s :: r => lbl_entry p (hd None s) ++ sets_labels (p + set_space s) r end.
+
+Lemma sets_cells_size_ge sets : 4 * N.of_nat (length sets) <= cells_size (sets_cells sets).
+Proof.
+  induction sets as [|s r IH]; cbn [sets_cells length cells_size]; [lia|].
+  rewrite cells_size_app, set_cells_size. pose proof (set_space_ge s). lia.
+Qed.
+Lemma sets_labels_keys sets : forall p k, In k (am_keys (sets_labels p sets)) -> p <= k < p + cells_size (sets_cells sets).
+Proof.
+  induction sets as [|s r IH]; intros p k; cbn [sets_labels sets_cells]; [intros []|].
+  rewrite am_keys_app, in_app_iff, cells_size_app, set_cells_size. pose proof (set_space_ge s) as G. intros [H|H].
+  - destruct (hd None s); cbn [lbl_entry am_keys map fst In] in H; [|destruct H]. destruct H as [H|[]]. subst k. lia.
+  - apply IH in H. lia.
+Qed.
+
+Lemma write_sets_spec : forall sets A,
+  keys_below (a_text A) (size A) -> keys_below (a_labels A) (size A) -> a_endian A = LE ->
+  Forall (fun s => s <> []) sets ->
+  write_sets sets A (size A)
+  = (Ok tt, set_labels (append_cells A (sets_cells sets)) (a_labels A ++ sets_labels (size A) sets),
+     size A + cells_size (sets_cells sets)).
+Proof.
+  induction sets as [|s r IH]; intros A Hk Hl He Hne; cbn [write_sets sets_cells sets_labels cells_size].
+  - rewrite append_cells_nil, app_nil_r, N.add_0_r. f_equal. f_equal. destruct A; reflexivity.
+  - inversion Hne as [|? ? Hs Hr]; subst. destruct s as [|lbl rest]; [congruence|].
+    rewrite (write_set_spec lbl rest A Hk Hl He). cbv zeta.
+    set (s := lbl :: rest) in *.
+    set (A1 := set_labels (append_cells A (set_cells s)) (a_labels A ++ lbl_entry (size A) lbl)).
+    assert (S1 : size A1 = size A + cells_size (set_cells s)) by apply size_append_cells.
+    rewrite <- S1. rewrite IH; [| | |exact He|exact Hr].
+    + f_equal; [f_equal|].
+      * apply archive_eq; cbn [set_labels append_cells a_data a_text a_ptrs a_labels a_cstrs a_endian]; try reflexivity.
+        -- unfold A1. cbn [set_labels append_cells a_data]. rewrite cells_bytes_app, app_assoc. reflexivity.
+        -- rewrite S1. unfold A1. cbn [set_labels append_cells a_text]. rewrite cells_text_app, app_assoc. reflexivity.
+        -- rewrite S1, set_cells_size. unfold A1, s. cbn [set_labels a_labels hd]. rewrite app_assoc. reflexivity.
+      * rewrite cells_size_app, S1. lia.
+    + exact (keys_below_append_cells A (set_cells s) Hk).
+    + intros k Hk1. cbn [A1 set_labels a_labels] in Hk1. rewrite am_keys_app, in_app_iff in Hk1.
+      rewrite S1. pose proof (set_space_ge s) as G. rewrite set_cells_size. destruct Hk1 as [H|H].
+      * apply Hl in H. lia.
+      * destruct lbl; cbn [lbl_entry am_keys map fst In] in H; [|destruct H]. destruct H as [H|[]]. lia.
+Qed.
+
+Lemma write_table_mid A : keys_below (a_text A) (size A) ->
+  forall t done n, 4 * N.of_nat (length t) <= n ->
+  write_table t (mid A done n) (size A + cells_size done)
+  = (Ok tt, mid A (done ++ map CStr t) (n - 4 * N.of_nat (length t)), size A + cells_size done + 4 * N.of_nat (length t)).
+Proof.
+  intros Hk. induction t as [|o r IH]; intros done n Hn; cbn [write_table map length] in *.
+  - rewrite app_nil_r, N.sub_0_r, N.add_0_r. reflexivity.
+  - rewrite w_write_string_mid by (try assumption; lia).
+    replace (size A + cells_size done + 4) with (size A + cells_size (done ++ [CStr o]))
+      by (rewrite cells_size_app; cbn [cells_size cell_size]; lia).
+    rewrite IH by lia. rewrite <- app_assoc. cbn [app]. rewrite cells_size_app. cbn [cells_size cell_size].
+    f_equal; [f_equal; f_equal|]; lia.
+Qed.
+Lemma cells_size_strs t : cells_size (map CStr t) = 4 * N.of_nat (length t).
+Proof. induction t as [|o r IH]; cbn [map cells_size cell_size length]; [reflexivity | rewrite IH; lia]. Qed.
+
+Lemma write_string_mid a done n o :
+  keys_below (a_text a) (size a) -> 4 <= n ->
+  write_string (mid a done n) (size a + cells_size done) o = Ok (mid a (done ++ [CStr o]) (n - 4)).
+Proof.
+  intros Hk Hn. pose proof (w_write_string_mid a done n o Hk Hn) as W. unfold w_write_string in W.
+  destruct (write_string (mid a done n) (size a + cells_size done) o); cbn [wr] in W; inversion W; reflexivity.
+Qed.
+
+Definition header_cells (v : aset) : list cell := [CRaw (enc LE 4 4); CStr (as_meta v); CRaw (enc LE 4 256)].
+Definition file_cells (v : aset) : list cell := header_cells v ++ map CStr (as_table v) ++ sets_cells (as_sets v).
+Definition SETS_AT : N := 12 + 4 * 257.
+Definition file_labels (v : aset) : amap (list bytes) := (12, [ACNT]) :: sets_labels SETS_AT (as_sets v).
+(* the values the reader can return and the round trip is about: 257 table entries, label + 256 slots per set *)
+Definition wf_aset (v : aset) : Prop :=
+  length (as_table v) = 257%nat /\ Forall (fun s : oset => length s = 257%nat) (as_sets v).
+
+Definition built (v : aset) : archive :=
+  {| a_data := cells_bytes (file_cells v); a_text := cells_text 0 (file_cells v); a_ptrs := [];
+     a_labels := file_labels v; a_cstrs := []; a_endian := LE |}.
+
+Theorem build_spec v :
+  length (as_table v) = 257%nat -> Forall (fun s : oset => s <> []) (as_sets v) -> build v = Ok (built v).
+Proof.
+  intros Ht Hs. unfold build. set (B := ba_new LE).
+  assert (KB : forall L, keys_below (a_text (set_labels B L)) (size (set_labels B L))) by (intros L k []).
+  rewrite mid_start.
+  pose proof (write_u32_mid B [] 12 4) as W1. change (size B + cells_size []) with 0 in W1. rewrite W1 by lia. clear W1.
+  cbn [bind app]. change (a_endian B) with LE. change (12 - 4) with 8.
+  pose proof (write_string_mid B [CRaw (enc LE 4 4)] 8 (as_meta v) (KB [])) as W2.
+  change (size B + cells_size [CRaw (enc LE 4 4)]) with 4 in W2. rewrite W2 by lia. clear W2.
+  cbn [bind app]. change (8 - 4) with 4.
+  pose proof (write_u32_mid B [CRaw (enc LE 4 4); CStr (as_meta v)] 4 256) as W3.
+  change (size B + cells_size [CRaw (enc LE 4 4); CStr (as_meta v)]) with 8 in W3. rewrite W3 by lia. clear W3.
+  cbn [bind app]. change (a_endian B) with LE. change (4 - 4) with 0. fold (header_cells v).
+  rewrite mid_more, Ht. change (N.of_nat 257 * 4) with 1028.
+  rewrite w_write_label_fresh; [| rewrite size_mid; change (size B) with 0; lia | intros []].
+  change (a_labels (mid B (header_cells v) 1028) ++ [(12, [ACNT])]) with [(12, [ACNT])].
+  rewrite set_labels_mid. set (B' := set_labels B [(12, [ACNT])]).
+  pose proof (write_table_mid B' (KB _) (as_table v) (header_cells v) 1028) as W4.
+  change (size B' + cells_size (header_cells v)) with 12 in W4. rewrite Ht in W4. change (4 * N.of_nat 257) with 1028 in W4.
+  rewrite W4 by lia. clear W4. change (1028 - 1028) with 0. rewrite mid_end.
+  set (A7 := append_cells B' (header_cells v ++ map CStr (as_table v))).
+  assert (S7 : size A7 = 12 + 1028).
+  { unfold A7. rewrite size_append_cells, cells_size_app, cells_size_strs, Ht. reflexivity. }
+  rewrite <- S7. rewrite write_sets_spec; [| | |reflexivity|exact Hs].
+  - cbn [out_of]. f_equal. rewrite S7.
+    apply archive_eq; cbn [built set_labels append_cells a_data a_text a_ptrs a_labels a_cstrs a_endian]; try reflexivity.
+    + unfold A7, file_cells. cbn [append_cells a_data B' set_labels B ba_new app]. rewrite app_assoc, <- cells_bytes_app. reflexivity.
+    + rewrite S7. unfold A7, file_cells. cbn [append_cells a_text B' set_labels B ba_new app].
+      change (size (set_labels (ba_new LE) [(12, [ACNT])])) with 0.
+      rewrite (app_assoc (header_cells v)), (cells_text_app 0 (header_cells v ++ map CStr (as_table v))).
+      rewrite cells_size_app, cells_size_strs, Ht. reflexivity.
+  - apply keys_below_append_cells. apply KB.
+  - intros k Hk. cbn [A7 append_cells a_labels B' set_labels am_keys map fst In] in Hk. destruct Hk as [Hk|[]]. rewrite S7. lia.
+Qed.
